@@ -773,7 +773,7 @@ class Executor:
                 st.env[f"__seq{k}"] = seq  # ghost name: the sequence loop #k iterates over
         if spec is None:
             raise Unsupported(f"loop #{k} ({head}) has no invariant in the contract")
-        if spec.head != head:
+        if spec.head != head and not (spec.head.endswith("*") and head.startswith(spec.head[:-1])):
             raise Unsupported(f"shape mismatch: loop #{k} is '{head}', contract expects '{spec.head}'")
         pre_state = st.snapshot()
         pre_view = View(self, pre_state)
@@ -965,6 +965,12 @@ class Executor:
 
     # ---- expressions ---------------------------------------------------------------
     def eval(self, node) -> V:
+        if self.contract.abstractions and isinstance(node, (ast.ListComp, ast.Call, ast.GeneratorExp, ast.SetComp)):
+            src = ast.unparse(node)
+            if src in self.contract.abstractions:
+                fn, note = self.contract.abstractions[src]
+                self.dropped.append((self.rel(node), f"ABSTRACTED expression `{src}`: {note}"))
+                return fn(View(self, self.st))
         m = getattr(self, "expr_" + node.__class__.__name__, None)
         if m is None:
             raise Unsupported(f"expression {node.__class__.__name__} at +{self.rel(node)}")
@@ -1499,7 +1505,10 @@ class Executor:
                 raise e
         old_view = View(self, cst)
         self.havoc_modified(ct, bound)
-        res = ct.returns.fresh(f"res_{ct.qual.split(':')[1]}", st) if ct.returns is not None else VNone()
+        if ct.result_builder is not None:
+            res = ct.result_builder(self, bound)
+        else:
+            res = ct.returns.fresh(f"res_{ct.qual.split(':')[1]}", st) if ct.returns is not None else VNone()
         nst = View(self, _with_env(st, bound), old=old_view)
         st.assume(ct.ensures(nst, res))
         return res
